@@ -165,11 +165,18 @@ class SkBaseTransformLearner(SkBaseTransform):
         if "method" in values:
             self.method = values["method"]
             del values["method"]
-        for k in values:
+        # parameters received as **kwargs by the constructor
+        own = {k: v for k, v in values.items() if k in self.P.Keys}
+        if own:
+            SkBaseTransform.set_params(self, **own)
+        d = len("model__")
+        pars = {}
+        for k, v in values.items():
+            if k in own:
+                continue
             if not k.startswith("model__"):
                 raise ValueError(f"Parameter '{k}' must start with 'model__'.")
-        d = len("model__")
-        pars = {k[d:]: v for k, v in values.items()}
+            pars[k[d:]] = v
         self.model.set_params(**pars)
         # binds the method of the current model (it may have been replaced)
         self._set_method(self.method)
